@@ -462,3 +462,112 @@ func storesInto(al *ssa.Alloc) []ssa.Value {
 	visit(al, 0)
 	return out
 }
+
+// sliceBackDeep is sliceBack that also follows the results of static calls to functions of the module into the
+// callee's return statements (so that a value produced by an extracted helper is traced to where the helper got it).
+func sliceBackDeep(v ssa.Value, visit func(ssa.Value) bool) {
+	seen := map[ssa.Value]bool{}
+	var rec func(x ssa.Value)
+	follow := func(call *ssa.Call, idx int) {
+		callee := call.Call.StaticCallee()
+		if callee == nil || callee.Blocks == nil || callee.Pkg == nil || !strings.HasPrefix(callee.Pkg.Pkg.Path(), modPath) {
+			return
+		}
+		for _, r := range returnsOf(callee) {
+			if idx < len(r.Results) {
+				rec(r.Results[idx])
+			}
+		}
+	}
+	rec = func(x ssa.Value) {
+		if x == nil || seen[x] {
+			return
+		}
+		seen[x] = true
+		if !visit(x) {
+			return
+		}
+		switch t := x.(type) {
+		case *ssa.UnOp:
+			if t.Op == token.MUL {
+				if al, ok := t.X.(*ssa.Alloc); ok {
+					if refs := al.Referrers(); refs != nil {
+						for _, r := range *refs {
+							if st, ok := r.(*ssa.Store); ok && st.Addr == al {
+								rec(st.Val)
+							}
+						}
+					}
+				}
+			}
+		case *ssa.Extract:
+			if call, ok := t.Tuple.(*ssa.Call); ok {
+				follow(call, t.Index)
+			}
+		case *ssa.Call:
+			follow(t, 0)
+		}
+		if al, ok := x.(*ssa.Alloc); ok {
+			for _, st := range storesInto(al) {
+				rec(st)
+			}
+		}
+		if ins, ok := x.(ssa.Instruction); ok {
+			for _, op := range ins.Operands(nil) {
+				if op != nil && *op != nil {
+					rec(*op)
+				}
+			}
+		}
+	}
+	rec(v)
+}
+
+func dependsOnCallDeep(v ssa.Value, pred func(*ssa.CallCommon) bool) bool {
+	found := false
+	sliceBackDeep(v, func(x ssa.Value) bool {
+		if c, ok := x.(*ssa.Call); ok && pred(&c.Call) {
+			found = true
+		}
+		return !found
+	})
+	return found
+}
+
+// reachSSA returns fn, its anonymous functions and the module functions it calls statically, transitively up to depth.
+func reachSSA(fn *ssa.Function, depth int) []*ssa.Function {
+	seen := map[*ssa.Function]bool{}
+	var out []*ssa.Function
+	var rec func(f *ssa.Function, d int)
+	rec = func(f *ssa.Function, d int) {
+		if f == nil || seen[f] || f.Blocks == nil {
+			return
+		}
+		seen[f] = true
+		out = append(out, f)
+		for _, a := range f.AnonFuncs {
+			rec(a, d)
+		}
+		if d == 0 {
+			return
+		}
+		for _, call := range callsIn(f) {
+			if callee := call.Call.StaticCallee(); callee != nil && callee.Pkg != nil && strings.HasPrefix(callee.Pkg.Pkg.Path(), modPath) {
+				rec(callee, d-1)
+			}
+		}
+	}
+	rec(fn, depth)
+	return out
+}
+
+func dependsOnValueDeep(v ssa.Value, target ssa.Value) bool {
+	found := false
+	sliceBackDeep(v, func(x ssa.Value) bool {
+		if x == target {
+			found = true
+		}
+		return !found
+	})
+	return found
+}
